@@ -30,9 +30,9 @@ EXHAUSTIVE = {'quick': False, 'thorough': False}
 SIZES = {'quick': 480, 'thorough': 12000}
 BAD = {
     'base': {'d': ['w=a=b', 'q=1=2', 'k=v=w', '0;w=1=1'], 'e': ['0;1;2', '0;1;2;3', '1;1;1;k=v', 'k=v;1;2;3', 'q=1;2;3;4', '1;k=v;2;3'],
-             'f': ['q=abc', 'abc', '0;x1', 'w=1,5', 'w=', 'q=1e', 'q=0;w=one']},
+             'f': ['q=abc', 'abc', '0;x1', 'w=1,5', 'w=', 'q=1e', 'q=0;w=one', 'q=1 000', 'w=72 Da', 'q=- 1', 'q=(1)']},
     'frag': {'d': ['w=a=b', 'x=R=S', 'k=v=w', '1;x=R=R'], 'e': ['1;R;2', '0.5;S;1;2', '1;R;S;k=v', 'k=v;0.5;R;8', 'x=R;0.5;7;8', '1;k=v;S;R'],
-             'f': ['w=abc', 'abc', 'w=1.5.2', 'w=', 'abc;R', 'x=R;w=heavy']},
+             'f': ['w=abc', 'abc', 'w=1.5.2', 'w=', 'abc;R', 'x=R;w=heavy', 'w=1 000', 'w=72 Da']},
 }
 EXPECT = {'c_fresh': 'SyntaxError', 'c_other_level': 'SyntaxError', 'a': 'SyntaxError', 'b': 'SyntaxError', 'c': 'SyntaxError', 'd': 'SyntaxError', 'e': 'SyntaxError', 'f': 'TypeError'}
 
